@@ -12,7 +12,6 @@ Variable F : key -> N -> list value -> list N -> N -> N.
 Variable rank : key -> nat.
 Hypothesis Hrank : wf_rank rules rank.
 Hypothesis Hdisc : forall k, r_disc (rules k) = [].
-Hypothesis Hsingle : forall k, r_single (rules k) = [].
 Notation cvK := (cvK rules env F rank).
 Notation task_ok2 := (task_ok2 rules env F rank).
 Notation BT := (BT rules env F rank).
@@ -110,7 +109,7 @@ Proof.
       * destruct (N.eq_dec t0 t) as [->|E]; [rewrite (E6 eq_refl); discriminate|rewrite (E5 E); exact K5].
       * destruct (N.eq_dec t0 t) as [->|E]; [intros _; rewrite Hv'; exact Hcv|].
         intros [H|H]; [congruence|]. unfold stored. destruct (RO t0 E) as [-> _]. now apply K6.
-      * intros i y0 Hi Hy0. rewrite Hdeps. destruct (K7 i y0 Hi Hy0) as [(rq & H1 & H2)|H]; [left; exists rq; split; [now apply HU|auto]|now right].
+      * intros i y0 Hu0 Hi Hy0. rewrite Hdeps. destruct (K7 i y0 Hu0 Hi Hy0) as [(rq & H1 & H2)|H]; [left; exists rq; split; [now apply HU|auto]|now right].
       * intros d. rewrite Hdeps. intros Hd. destruct (K8 d Hd) as [H|(rq & H1 & H2)]; [left; now apply Hcurk|right; exists rq; split; auto].
       * intros d. rewrite Hdeps. apply K9.
       * now rewrite E4.
@@ -122,10 +121,9 @@ Proof.
     apply (BC_change rules F (fun k => N.eqb k t) s s'); auto.
     + intros k. rewrite (proj2 (proj2 (HP k))). apply HC.
     + intros k E. apply N.eqb_neq in E. now apply RO.
-    + intros k E. apply N.eqb_eq in E. subst k. destruct Hip as [I1 I2]. split; [now apply in_progress_unsettled|]. split; [exact I2|]. split; [|split].
+    + intros k E. apply N.eqb_eq in E. subst k. destruct Hip as [I1 I2]. split; [now apply in_progress_unsettled|]. split; [exact I2|]. split.
       * unfold bAt. destruct RT as [-> _]. unfold r'. apply completed_result_built.
       * intros _. destruct RT as [-> _]. unfold r'. apply completed_result_sig.
-      * rewrite Hdeps. apply (b_ns _ _ _ HC).
     + intros k E. apply N.eqb_eq in E. subst k. unfold stored, cAt. destruct RT as [-> _]. unfold r'. apply completed_result_cases.
   - (* scanning *)
     apply (BS_change rules env F rank (fun k => N.eqb k t) x s s'); auto.
@@ -225,14 +223,14 @@ Proof.
         -- intros i Hu Hn0. destruct (K3 i Hu Hn0) as (rq & H1 & H2). exists rq. split; auto.
         -- intros v Hv. inversion Hv. now subst.
         -- rewrite Hst. exact K6.
-        -- intros i y0 Hi Hy0. rewrite Hdeps. destruct (K7 i y0 Hi Hy0) as [(rq & H1 & H2)|H]; [left; exists rq; split; [now apply HU|auto]|now right].
+        -- intros i y0 Hu0 Hi Hy0. rewrite Hdeps. destruct (K7 i y0 Hu0 Hi Hy0) as [(rq & H1 & H2)|H]; [left; exists rq; split; [now apply HU|auto]|now right].
         -- intros d. rewrite Hdeps. intros Hd. destruct (K8 d Hd) as [H|(rq & H1 & H2)]; [left; now apply Hcurk|right; exists rq; split; auto].
         -- intros d. rewrite Hdeps. apply K9.
         -- rewrite HR. exact K11.
       * destruct (T6 t0 z Hz) as [K1 K2 K3 K4 K5 K6 K7 K8 K9 K10 K11]. constructor; auto.
         -- intros i Hu Hn0. destruct (K3 i Hu Hn0) as (rq & H1 & H2). exists rq. split; auto.
         -- rewrite Hst. exact K6.
-        -- intros i y0 Hi Hy0. rewrite Hdeps. destruct (K7 i y0 Hi Hy0) as [(rq & H1 & H2)|H]; [left; exists rq; split; [now apply HU|auto]|now right].
+        -- intros i y0 Hu0 Hi Hy0. rewrite Hdeps. destruct (K7 i y0 Hu0 Hi Hy0) as [(rq & H1 & H2)|H]; [left; exists rq; split; [now apply HU|auto]|now right].
         -- intros d. rewrite Hdeps. intros Hd. destruct (K8 d Hd) as [H|(rq & H1 & H2)]; [left; now apply Hcurk|right; exists rq; split; auto].
         -- intros d. rewrite Hdeps. apply K9.
         -- rewrite HR. exact K11.
@@ -240,9 +238,8 @@ Proof.
       right. right. left. unfold is_in_progress in *. rewrite HK. destruct (N.eqb root t); auto.
   - apply (BC_change rules F (fun k => N.eqb k t) s s'); auto.
     + intros k. rewrite (proj2 (proj2 (HP k))). apply HC.
-    + intros k E. apply N.eqb_eq in E. subst k. destruct Hip as [I1 I2]. split; [now apply in_progress_unsettled|]. split; [exact I2|]. unfold bAt. rewrite HR. split; [reflexivity|]. split.
-      * intros Hb. now apply (b_sig _ _ _ HC).
-      * rewrite Hdeps. apply (b_ns _ _ _ HC).
+    + intros k E. apply N.eqb_eq in E. subst k. destruct Hip as [I1 I2]. split; [now apply in_progress_unsettled|]. split; [exact I2|]. unfold bAt. rewrite HR. split; [reflexivity|].
+      intros Hb. now apply (b_sig _ _ _ HC).
     + intros k E. left. unfold cAt. now rewrite Hst, HR.
   - apply (BS_change rules env F rank (fun k => N.eqb k t) x s s'); auto.
     + intros k E. apply N.eqb_eq in E. subst k. split; [apply in_progress_unsettled|]; apply Hip.
@@ -276,7 +273,7 @@ Proof.
       constructor; auto.
       * intros i Hu' Hn0. destruct (K3 i Hu' Hn0) as (rq & H1 & H2). exists rq. split; auto. now apply HO.
       * rewrite Hft. unfold stored. now rewrite HRes.
-      * intros i y Hi' Hy. rewrite Hd. destruct (K7 i y Hi' Hy) as [(rq & H1 & H2)|H]; [left; exists rq; split; [now apply HU|auto]|now right].
+      * intros i y Hu0 Hi' Hy. rewrite Hd. destruct (K7 i y Hu0 Hi' Hy) as [(rq & H1 & H2)|H]; [left; exists rq; split; [now apply HU|auto]|now right].
       * intros d. rewrite Hd. intros Hin. destruct (K8 d Hin) as [H|(rq & H1 & H2)]; [left; now apply Hcurk|right; exists rq; split; auto; now apply HO].
       * intros d. rewrite Hd. apply K9.
       * rewrite Hft, HRes. exact K11.
